@@ -43,7 +43,12 @@ CLAIMED["C06"] = dict(
    ref="DESIGN.md §6 C06",
    note="Trusts: Executor::reachable_heap_indices as the definition of 'reachable' (the runtime's own tracing oracle), the verif accessors, the episode templates' byte model. 'Only via select_state.receiving' cannot exist at a turn boundary (the mailbox copy is still there) and is reported, not required.",
    technique="deterministic simulation: seeded interleaving/quantum search with per-turn accounting invariants, shadow-copy oracle and byte model")
-PENDING = {k: 'claimed in DESIGN.md; check under construction in this revision (not yet registered)' for k in ['C05','C10','C11','C13']}
+CLAIMED["C05"] = dict(
+   text="A subject process performs 1-3 generated selects (awaited children that finish, fail or never finish; typed receives with and without filter bodies, some long enough to span many turns at quantum 1; timeouts incl. 0; await-only races over 3-4 children) followed by zero-timeout drains, while a stimulus script sends unique typed messages, releases children and lets virtual time pass. After every turn of the subject's worker the monitor records what the subject could see (mailbox at slice start, results known, clock value, vector clock, whether its await exchange was complete); at the end an executable reference model of select judges every completion: the yielding source was ready and yielded the earliest message its filter accepts; no earlier-written source was ready (mailbox content, results known to the worker or causally known through the FIFO star topology, timeouts elapsed by the implementation's own clock values); a timeout never yields nil earlier than its duration of true virtual time after the select was entered (backward wall-clock steps included); the drains check that untaken messages kept their order. Sampling, not proof.",
+   ref="DESIGN.md §6 C05, §4.1",
+   note="Trusts: the host-side filter/type model of the generated sources, the vector-clock reading of 'ready' for remote completions (strictly-later turn of the finishing worker known to the subject's worker), the simulated clock. A late failure of a process listed in an earlier, already completed select may kill the subject: counted, not judged (the statement is silent).",
+   technique="deterministic simulation: seeded interleaving + virtual-clock search with an executable reference model of select evaluated over the recorded history")
+PENDING = {k: 'claimed in DESIGN.md; check under construction in this revision (not yet registered)' for k in ['C10','C11','C13']}
 
 def main():
     checks = []
